@@ -151,9 +151,13 @@ def write_plan(cells, path):
             f.write(" ".join(str(c[k]) for k in PLAN_FIELDS) + "\n")
 
 def workdir(prop):
-    d = os.path.join(CACHE, "work", prop)
+    """scratch directory of this run (unique per process so that concurrent runs of the same check do not collide);
+    removed at exit"""
+    import atexit
+    d = os.path.join(CACHE, "work", "%s_%d" % (prop, os.getpid()))
     shutil.rmtree(d, ignore_errors=True)
     os.makedirs(d)
+    if not os.environ.get("VERIF_KEEP_WORK"): atexit.register(lambda: shutil.rmtree(d, ignore_errors=True))
     return d
 
 def record(bins, plan_path, wd, seed, timeout=900):
